@@ -1,10 +1,10 @@
 /-
   Constant folding: mirrors /repo/lib/src/tir/ceval.rs.  `i64` is `Int` plus explicit range tests
   (`checked_add/sub/mul/div/rem/neg`); `checked_shl/shr` test only the shift amount, exactly as Rust's do
-  (finding F8: `3 << 62` wraps).  Floats are opaque bit patterns operated on through `FloatOps` (an abstract
+  (finding F8, repaired: the result of `<<` is now checked by shifting back).  Floats are opaque bit patterns operated on through `FloatOps` (an abstract
   interface: the theorems hold for any interpretation; the driver instantiates it with Lean's `Float`).
-  Strings are compared the way Rust compares `String`: by UTF-8 bytes = by code point (finding F6: the
-  run-time comparison of QString is by UTF-16 code unit).
+  Strings are compared the way Rust compares `String`: by UTF-8 bytes = by code point (finding F6, repaired: strings are now
+  compared by UTF-16 code unit like the run-time QString comparison).
 -/
 import QV.Model.Tir
 
@@ -63,12 +63,29 @@ structure FloatOps where
   lt : Nat → Nat → Bool
   le : Nat → Nat → Bool
 
-/-- `<str as Ord>`: lexicographic by code point -/
-def strLt : List Char → List Char → Bool
+/-- `str::encode_utf16` -/
+def utf16 : List Char → List Nat
+  | [] => []
+  | c :: rest =>
+    if c.toNat < 0x10000 then c.toNat :: utf16 rest
+    else (0xD800 + (c.toNat - 0x10000) / 0x400) :: (0xDC00 + (c.toNat - 0x10000) % 0x400) :: utf16 rest
+
+/-- `<[u16] as Ord>`: lexicographic -/
+def unitsLt : List Nat → List Nat → Bool
   | [], [] => false
   | [], _ :: _ => true
   | _ :: _, [] => false
-  | a :: as, b :: bs => if a.toNat < b.toNat then true else if b.toNat < a.toNat then false else strLt as bs
+  | a :: as, b :: bs => if a < b then true else if b < a then false else unitsLt as bs
+
+/-- string order used by the folder after the repair of F6: by UTF-16 code unit, like QString and JavaScript -/
+def strLt (l r : List Char) : Bool := unitsLt (utf16 l) (utf16 r)
+
+/-- the order used before the repair: `<str as Ord>`, lexicographic by code point (kept for the F6 witness) -/
+def strLtCodePoint : List Char → List Char → Bool
+  | [], [] => false
+  | [], _ :: _ => true
+  | _ :: _, [] => false
+  | a :: as, b :: bs => if a.toNat < b.toNat then true else if b.toNat < a.toNat then false else strLtCodePoint as bs
 
 def cmpBy {α} (op : CmpOp) (eq lt : α → α → Bool) (l r : α) : Bool :=
   match op with
@@ -146,7 +163,10 @@ def evalShift (op : ShiftOp) (l r : ConstantValue) : Except ExprError ConstantVa
     else
       (match op with
        | .shr => .ok (.integer (a / (2 : Int) ^ b.toNat))      -- arithmetic shift = floor division
-       | .shl => .ok (.integer (wrapI64 (a * (2 : Int) ^ b.toNat))))
+       | .shl =>
+         -- `l.checked_shl(n).filter(|a| a >> n == l)` (after the repair of F8)
+         let w := wrapI64 (a * (2 : Int) ^ b.toNat)
+         if w / (2 : Int) ^ b.toNat = a then .ok (.integer w) else .error .integerOverflow)
   | _, _ => .error (.opUnsupportedTypes op.symbol l.typeDesc r.typeDesc)
 
 /-- `eval_comparison_expression` -/
